@@ -382,6 +382,8 @@ func c17Cases(c runCfg) ([]*scratch.Pkg, []string, map[string]interface{}) {
 	}
 	for i := 0; i < n; i++ {
 		sp := &dialect.Spec{Schemes: []dialect.Scheme{schemeFor("A", "keyheader"), schemeFor("B", "bearer"), schemeFor("C", "keyquery")}}
+		// the apiKey header as the document spells it: canonical, upper-case run, lower case, equal (up to case) to a declared header parameter
+		sp.Schemes[0].Param = []string{"X-Key-A", "X-KEY-A", "x-key-a", "X-API-Key", "x-request-id"}[i%5]
 		if i%4 == 0 {
 			sp.Global, sp.HasGlobal = []dialect.Requirement{{"B"}}, true
 		}
